@@ -188,6 +188,9 @@ def oracle(sc):
             return ('session id / server capabilities reported are not those of the server hello', cands[0], (ob['sid'], ob['caps']))
         # (d) framing after the hello: chunked iff both advertised base:1.1 (decided on the reported server list)
         chunked = has11(rep[1]) and has11(client)
+        if len(goods) > 1:            # a server that sends several hellos: the decision may have read any of them
+            options = {has11(g[1]) and has11(client) for g in goods}
+            chunked = (at.get('base') == 2) if (at.get('base') == 2) in options else chunked
         if (at.get('base') == 2) != chunked:
             return ('framing version after the hello exchange is not "1.1 iff both peers advertise base:1.1"', '1.1' if chunked else '1.0', at.get('base'))
         later = whole[1:]
@@ -214,6 +217,8 @@ def oracle(sc):
         if spec.get('eager') or not goods or spec.get('never_ready_hello'): allowed.add('SessionError')
         if not goods and not allowed - {'SessionError'}: allowed = {'SessionError'}
         if name not in allowed:
+            if not allowed:
+                return ('connect failed (%s) although the server sent a well-formed hello and nothing else went wrong' % name, 'ok', name)
             return ('connect failed with the wrong exception', sorted(allowed), name)
         if name == 'SessionError' and goods and not spec.get('eager'):
             return ('connect timed out although the server hello arrived', 'ok', name)
